@@ -168,6 +168,7 @@ def more_fields(f: dict) -> None:
         (vp(), True, vexp()), (vp(e=65535), True, vexp(e=65535)), (vp(e=65536), False, None), (vp(e=-1), False, None), (vp(o=65535), True, vexp(o=65535)), (vp(o=65536), False, None),
         (vp(sz=65535), True, vexp(sz=65535)), (vp(sz=65536), False, None), (vp(b=1048574, sz=1), True, vexp(b=1048574, sz=1)), (vp(b=1048575, sz=1), None, vexp(b=1048575, sz=1)), (vp(b=1048576, sz=1), False, None), (vp(b='banana'), False, None),
         (vp(rd='65536:65536'), False, None), (vp(rd='banana'), False, None),
+        (vp().replace(' next-hop 10.0.0.9', ''), False, None),  # no next hop: cannot be announced
     ]  # fmt: skip
     f['attributes'] = [
         (f'med {U32}', True, {'kind': 'attributes', 'attrs': {'med': U32}}), (f'med {U32 + 1}', False, None), ('local-preference -1', False, None),
